@@ -27,6 +27,8 @@ func main() {
 		syncCmd()
 	case "baseline":
 		baselineCmd()
+	case "pinconsts":
+		pinConstsCmd()
 	default:
 		fmt.Fprintln(os.Stderr, "unknown command", os.Args[1])
 		os.Exit(2)
@@ -262,7 +264,7 @@ func baselineCmd() {
 					continue
 				}
 				switch o.Kind {
-				case "post", "panics", "atreturn", "inv-init", "inv-pres", "decreases":
+				case "post", "panics", "atreturn":
 					names = append(names, o.Name)
 				}
 			}
